@@ -10,6 +10,7 @@ package xdedup
 
 import (
 	"fmt"
+	"math"
 	"sort"
 	"strings"
 	"testing"
@@ -42,6 +43,8 @@ type aggSeries struct {
 	ts   []int64
 	cuts []int // chunk sizes
 	mask [5]bool
+	// special: every few samples sum/min/max/counter carry a special float (NaN, stale-marker NaN, +-Inf)
+	special bool
 	// lead >= 0: every counter chunk begins with the first raw value of its batch at lead ms before
 	// the chunk's first window timestamp (what downsampleFloatBatch writes); -1: no such sample
 	lead int64
@@ -75,6 +78,9 @@ func (a aggSeries) metas(seriesIdx int) []chunks.Meta {
 			}
 			at := at
 			chks[at] = xorChunk(ts, func(i int) float64 {
+				if a.special && downsample.AggrType(at) != downsample.AggrCount && (base+i)%5 == 2 {
+					return []float64{math.NaN(), math.Float64frombits(0x7ff0000000000002), math.Inf(1), math.Inf(-1)}[((base+i)/5)%4]
+				}
 				switch downsample.AggrType(at) {
 				case downsample.AggrCount:
 					return float64(1 + (base+i)%3)
@@ -95,12 +101,13 @@ func (a aggSeries) String() string {
 	if len(a.ts) == 0 {
 		return "[]"
 	}
-	return fmt.Sprintf("[n=%d t0=%d tN=%d cuts=%v mask=%v lead=%d]", len(a.ts), a.ts[0], a.ts[len(a.ts)-1], a.cuts, a.mask, a.lead)
+	return fmt.Sprintf("[n=%d t0=%d tN=%d cuts=%v mask=%v lead=%d special=%v]", len(a.ts), a.ts[0], a.ts[len(a.ts)-1], a.cuts, a.mask, a.lead, a.special)
 }
 
 func genAggSeries(rt *rapid.T, label string, res int64, base int64, mask [5]bool, maxN int) aggSeries {
 	n := rapid.IntRange(1, maxN).Draw(rt, label+"n")
 	a := aggSeries{mask: mask, lead: -1}
+	a.special = rapid.IntRange(0, 3).Draw(rt, label+"specialFloats") == 0
 	if rapid.Bool().Draw(rt, label+"leadingRaw") {
 		a.lead = rapid.SampledFrom([]int64{0, 1, res / 2, res - 1, res / 5}).Draw(rt, label+"lead")
 	}
